@@ -12,6 +12,8 @@ SRC = ['harness/c18_train.c', 'ref/edu_decoder.c']
 def run(vc, tier):
     c = vc.Check('C18', tier, 'exploration', RULE)
     q = tier == 'quick'
+    # the legacy trainer's segment table filled up: 14 000 distinct repeated words (2.7 MB corpus), trainFromBuffer_legacy and trainFromBuffer
+    c.run_vx_unit('c18-manyseg', SRC, 'sched-asan', ['--D', 0, '--explore', 0, '--manyseg', 14000, '--exec-timeout', 300000], engine_srcs=['engine/vsched.c'], share=0.5)
     r = c.run_vx_unit('c18-train', SRC, 'sched-asan', ['--D', 1 if q else 2, '--explore', 0, '--exec-timeout', 120000], engine_srcs=['engine/vsched.c'], share=0.6)
     if not q:
         c.run_vx_unit('c18-train-schedules', SRC, 'sched-asan', ['--D', 2, '--P', 1, '--explore', 1, '--exec-timeout', 120000], engine_srcs=['engine/vsched.c'], share=0.9)
